@@ -347,11 +347,10 @@ func judgeInclude(args, real, drv json.RawMessage) *core.Verdict {
 	json.Unmarshal(drv, &d)
 	if why := nonTermination(real); why != "" {
 		// the real loader does not return: a violation of the property whatever the model says
-		v := core.Fail("hang@include-override-position", "include graph on which the loader does not return ("+why+")")
 		if d.Class != "outOfFuel" {
-			v.What += " — and the model expected " + d.Class
+			return core.Fail("hang@include", "include graph on which the loader does not return ("+why+") although the model answers "+d.Class)
 		}
-		return v
+		return core.Fail("hang@include-override-position", "include graph on which the loader does not return ("+why+"), as the model predicts")
 	}
 	if v := core.CrashVerdict(real); v != nil {
 		return v
@@ -451,7 +450,7 @@ func init() {
 		},
 		DriverOp: "c01tracker", Judge: crashOr("Tracker.add ≠ cycleTracker.Add"),
 	})
-	core.Register("c01extends", &core.CheckDef{Real: realExtends, DriverOp: "c01extends", Judge: judgeExtends})
+	core.Register("c01extends", &core.CheckDef{Real: realExtends, DriverOp: "c01extends", Judge: judgeExtends, Timeout: 4 * time.Second})
 	core.Register("c01include", &core.CheckDef{Real: realInclude, DriverOp: "c01include", Judge: judgeInclude, Timeout: 5 * time.Second})
 	core.Register("c01checkCycle", &core.CheckDef{Real: realCheckCycle, DriverOp: "c01checkCycle", Judge: crashOr("Dep.checkCycle ≠ graph.CheckCycle")})
 }
